@@ -561,6 +561,26 @@ pub fn gen_script(r: &mut Rng, flavor: &str) -> String {
                     format!("{}>B{}", hs_valid(&peer_id), hex(&r.bytes(bf_bytes)))
                 }
             }
+            "C14" => {
+                // own-state broadcasts in every combination with the peer's declared interest
+                if w(0, 28) {
+                    "ou".into()
+                } else if w(28, 48) {
+                    "oc".into()
+                } else if w(48, 56) {
+                    "o-".into()
+                } else if w(56, 72) {
+                    "f:in".into()
+                } else if w(72, 82) {
+                    "f:ni>Ig".into()
+                } else if w(82, 90) {
+                    format!("f:bf,{}>S{}{}", hex(&r.bytes(bf_bytes)), if r.coin() { 'u' } else { '-' }, if r.coin() { 'i' } else { 'n' })
+                } else if w(90, 95) {
+                    format!("h{}>Ig", r.below(np as u64))
+                } else {
+                    "t60".into()
+                }
+            }
             "C09" => {
                 if w(0, 12) && last_served.is_some() {
                     // the piece that was loaded last is asked for again (whatever happened in between: choke, unchoke,
@@ -717,7 +737,10 @@ pub fn gen(r: &mut Rng, n: usize, flavor: &str) -> Vec<String> {
         }
     }
     while out.len() < n {
-        out.push(gen_script(r, flavor));
+        // C11: a third of the scripts are download flows (a completed piece is what gets announced: the order of the
+        // store and of PieceDone, which makes the manager broadcast the announcement, is part of the property)
+        let fl = if flavor == "C11" && out.len() % 3 == 2 { "C01" } else { flavor };
+        out.push(gen_script(r, fl));
     }
     out.truncate(n.max(14));
     out
